@@ -87,8 +87,8 @@ func init() {
 	fw.Register(&fw.Check{
 		ID:    "C05",
 		Title: "A mutating command either leaves a valid file or leaves the file untouched",
-		Rule: "files = the initial files of C04 plus EVERY single edit of them from the 103-operator fault catalogue (valid and invalid results: malformed dates/headlines, wrong/mixed indentation, malformed values, second open range, blank line inside a record, stray text, …) plus files with invalid UTF-8 / stray CR / no klog content; " +
-			"x the 72 commands of C04 plus 15 failure-directed ones (unknown --date for stop/switch, end before start, entry text that is no entry / re-indents / contains a blank line, invalid flag values, switch whose second step fails, pause --extend without pause); quick: every 3rd file. " +
+		Rule: "files = the initial files of C04 plus EVERY single edit of them from the " + fmt.Sprint(len(docgen.Ops)) + "-operator fault catalogue (valid and invalid results: malformed dates/headlines, wrong/mixed indentation, malformed values, second open range, blank line inside a record, stray text, …) plus files with invalid UTF-8 / stray CR / no klog content; " +
+			"x " + fmt.Sprint(len(c05Ops())) + " commands (those of C04 plus 15 failure-directed ones: unknown --date for stop/switch, end before start, entry text that is no entry / re-indents / contains a blank line, invalid flag values, switch whose second step fails, pause --extend without pause); quick: every 3rd file. " +
 			"All through klog.Run (real exit status, real write path). A case = (file, command); distinct by hash of both.",
 		Assumptions: []string{
 			"exit 0 => the file afterwards is accepted by klog's parser and by the reference parser (lenient reading of klog's own don't-care zones); exit != 0 => bytes identical and no other file appeared in the directory; a panic is a violation",
